@@ -37,7 +37,7 @@ FLOORS = {"quick": {"plans": 2000, "numeric_stops": 2000, "stops_coinciding": 50
                        "refused_until": 2000, "hashseed_digests_compared": 10000, "inprocess_reruns": 40000,
                        "net_digests_compared": 300, "net_split_plans": 10000}}
 PROFILE = {"weights": {"timeout": 5, "zero": 1, "wait": 3, "succeed": 2.5, "fail": 0.6, "spawn": 1.5, "join": 2,
-                       "interrupt": 1.5, "cb": 0.7, "cond": 1.5},
+                       "interrupt": 1.5, "cb": 0.7, "cond": 1.5, "chain": 0.3, "cbint": 0.2},
            "max_top": 5, "max_child_scripts": 3, "min_ev": 1, "max_ev": 3, "p_exact": 0.6, "p_raise": 0.08,
            "p_catch": 0.8, "t0": [0, 0, 0, 5, 2.5]}
 
@@ -74,6 +74,8 @@ def gen_plan(rng, T, nprocs, nev, t0):
                 elems.append(["ev", f"P{rng.randrange(max(1, nprocs))}"])
         else:
             elems.append(["steps", rng.randint(1, 12)])
+    if rng.random() < 0.06:
+        elems.append(["num", float("inf")])          # a legal stop instant: everything finite is due strictly before it
     return elems
 
 
@@ -88,7 +90,10 @@ def run_split(ctx, prog, plan_, T, Tsteps, K, stats):
     simulation does after run() raised is outside the property (the uninterrupted run has
     ended there)."""
     viol = []
-    r = kern.Runner(K, prog)
+    # the C02 ledger rides along: "a failed event that no waiter handles makes run()/step() raise" holds for every
+    # call form and also after an earlier call was aborted (only failure-lost / escape-mismatch are taken from it)
+    mon = kern.Monitor(agenda=False, waiters=True, interrupts=False)
+    r = kern.Runner(K, prog, mon=mon)
     r.start()
     env = r.env
     Tn = strip_end(T)
@@ -109,7 +114,20 @@ def run_split(ctx, prog, plan_, T, Tsteps, K, stats):
             return False
         return True
 
+    def note_raise(exc):
+        if mon.pending_escape is not None:
+            mon.escaped(exc)
+
+    def lost_failures(viol, tag=""):
+        for m, what, wit in mon.viol:
+            if m in ("failure-lost", "escape-mismatch"):
+                viol.append((m + "[split-run]" + tag, what, wit))
+        if mon.pending_escape is not None and mon.pending_escape[3] <= env.steps and not any(v[0].startswith("failure-lost") for v in viol):
+            viol.append(("failure-lost[split-run]" + tag, "an unhandled failed event did not make the run()/step() call in progress raise",
+                         {"event": mon.pending_escape[0]}))
+
     def log_escape(exc):
+        note_raise(exc)
         r.escapes.append((env.now, env.steps, exc))
         r.tape.append((env.now, "escape", kern.canon_exc(exc)))
         state["ended"] = True
@@ -182,6 +200,8 @@ def run_split(ctx, prog, plan_, T, Tsteps, K, stats):
                                  {"event": lab, "result": repr(res)[:200]}))
             else:
                 exc = res[1] if res[0] == "raise" else None
+                if exc is not None:
+                    note_raise(exc)
                 if exc is None or type(exc) is not type(E._value) or exc.args != E._value.args:
                     viol.append(("until-failed-event-wrong-exception", "run(until=E) for a failed E did not raise E's exception",
                                  {"event": lab, "result": repr(res)[:200]}))
@@ -232,6 +252,8 @@ def run_split(ctx, prog, plan_, T, Tsteps, K, stats):
                 if not (el2[1] > env.now):
                     continue
                 res = r.run_call(until=el2[1])
+                if res[0] == "raise":
+                    note_raise(res[1])
                 if res[0] == "ret" and env.now != el2[1]:
                     viol.append(("run-until-returned-at-wrong-time[after-an-escape]", "run(until=t) returned with now != t",
                                  {"t": el2[1], "now": env.now}))
@@ -244,6 +266,8 @@ def run_split(ctx, prog, plan_, T, Tsteps, K, stats):
                 if E is None or E.callbacks is None:
                     continue
                 res = r.run_call(until=E)
+                if res[0] == "raise":
+                    note_raise(res[1])
                 if res[0] == "ret" and (E.callbacks is not None or res[1] is not E._value):
                     viol.append(("until-event-returned-early[after-an-escape]", "run(until=E) returned although E has not been processed (or not E's value)",
                                  {"event": lab, "result": repr(res)[:200]}))
@@ -256,12 +280,13 @@ def run_split(ctx, prog, plan_, T, Tsteps, K, stats):
                         env.step()
                     except K.EmptySchedule:
                         break
-                    except prog_excs:
-                        pass
+                    except prog_excs as exc:
+                        note_raise(exc)
                     except BaseException as exc:
                         viol.append(("unexpected-exception-from-step[after-an-escape]", "step() raised something that is neither EmptySchedule nor a failure of the program",
                                      repr(exc)[:200]))
                         break
+        lost_failures(viol, "[after-an-escape]")
         return viol, effective
     if not viol:
         if not state["ended"]:
@@ -275,6 +300,8 @@ def run_split(ctx, prog, plan_, T, Tsteps, K, stats):
                          "the concatenated tape of the split run differs from the uninterrupted run (lost, duplicated or reordered)",
                          {"first_diff": i, "split": S[i] if i is not None and i < len(S) else None,
                           "whole": Tn[i] if i is not None and i < len(Tn) else None, "plan": plan_}))
+    if not viol:
+        lost_failures(viol)
     return viol, effective
 
 
@@ -359,7 +386,46 @@ def hashseed_part(ctx, n, seeds):
     ctx.count("hashseeds_used", len(seeds))
 
 
+def inf_stop_probe(ctx):
+    """run(until=inf): inf is a number like any other -- everything finite is due strictly before it and takes effect,
+    what is due at inf itself does not, now == inf afterwards and any later numeric stop is refused"""
+    K = kern.RealK.load()
+    INF = float("inf")
+    for t0 in (0, 2.5):
+        ctx.count("inf_stop_probes")
+        env = K.Environment(t0)
+        log = []
+
+        def waiter(env, d, tag):
+            yield env.timeout(d)
+            log.append((tag, env.now))
+        env.process(waiter(env, 1, "a"))
+        env.process(waiter(env, 3, "b"))
+        env.process(waiter(env, INF, "parked"))
+        case = {"probe": "inf_stop", "t0": t0}
+        try:
+            env.run(until=INF)
+        except BaseException as e:
+            ctx.violation("run-until-inf-raised", "run(until=inf) raised", repr(e), case)
+            continue
+        if env.now != INF:
+            ctx.violation("run-until-returned-at-wrong-time[inf]", "run(until=t) returned with now != t for t = inf",
+                          {"now": env.now}, case)
+        if log != [("a", t0 + 1), ("b", t0 + 3)]:
+            ctx.violation("numeric-stop-not-transparent[inf]", "after run(until=inf) not exactly the occurrences due strictly before inf had taken effect",
+                          {"log": log}, case)
+        try:
+            env.run(until=10 ** 9)
+            ctx.violation("until-not-after-now-accepted[inf]", "run(until=t) with t <= now (= inf) was not refused with ValueError", None, case)
+        except ValueError:
+            pass
+        except BaseException as e:
+            ctx.violation("until-not-after-now-accepted[inf]", "run(until=t) with t <= now (= inf) raised something else", repr(e), case)
+
+
 def run_shard(ctx):
+    if ctx.shard == 0:
+        inf_stop_probe(ctx)
     stats = {k: 0 for k in ("plans", "numeric_stops", "stops_coinciding", "until_event_calls",
                             "until_event_late_waiter", "step_calls", "refused_until", "inprocess_reruns", "skipped_many_escapes", "post_escape_calls")}
     for i in ctx.cases(ncases(ctx.tier)):
